@@ -1,14 +1,16 @@
 """C08 — verdict and exit status follow the documented tolerances."""
 ID = "C08"
-PROPS = ["F1Verif.Props.C08", "F1Verif.Props.FactsC08"]
+PROPS = ["F1Verif.Props.C08", "F1Verif.Props.FactsC08", "F1Verif.Props.C14Cli"]
 ALSO = ["F1Verif.Legacy.Verdict"]
 RULE = ("engine A: (hasErr, ignoreDropped, maxFailures, maxFailuresRate, succ, failed, dropped) tuples — "
         "corpus of pinned witnesses, every tolerance threshold +-1, zero-iteration runs, random tuples; "
         "the real run.Result is built from recorded outcomes and Failed() compared with the model and "
-        "evaluated against FailedSpec. A case is non-trivial when it has failed or dropped iterations or an "
+        "evaluated against FailedSpec; cli op: generated command lines and config files (tolerance flags / limits present or "
+        "absent, failing iterations, drops, failing setup and teardown) through F1.ExecuteWithArgs — its error must be the "
+        "documented verdict for the counts in the summary it logged. A case is non-trivial when it has failed or dropped iterations or an "
         "error or a tolerance option set; distinct = distinct argument tuples.")
 ASSUMPTIONS = ["uint64 counters do not overflow (counts < 1.8e17)", "max-failures-rate >= 0 (negative rates are outside 'sane ranges')",
-               "the CLI mapping is exercised on the real cobra command by the run.cli op (few cases, wall-clock)"]
+               "the CLI mapping is exercised on the real cobra command by the cli op (F1.ExecuteWithArgs; wall-clock runs of 0.1-1 s)"]
 
 
 def case(e, ign, mf, mfr, s, f, d):
@@ -30,7 +32,7 @@ def corpus():
         case(0, 0, 0, 28, 18, 7, 0),
         case(0, 1, 2, 0, 5, 3, 2),      # ignore-dropped must not mask the failure tolerance
         case(0, 1, 0, 0, 5, 1, 2),
-    ]
+    ] + [c for c in __import__("vlib.props._plan", fromlist=["x"]).cli_corpus() if "maxfail" in c or "igndrop" in c or "fail=" in c or "bodyms=30" in c]
 
 
 def generate(rng, tier):
@@ -70,6 +72,12 @@ def generate(rng, tier):
                         rng.choice([0, 0, rng.randint(0, 100), rng.randint(0, 100)]),
                         rng.choice([0, rng.randint(0, hi)]), rng.choice([0, rng.randint(0, hi)]),
                         rng.choice([0, 0, rng.randint(0, 30)])))
+    # exit status: real command lines (flags and config-file limits -> options -> verdict -> error of ExecuteWithArgs)
+    from . import _plan
+    for _ in range({"quick": 30, "thorough": 300, "search": 60}[tier]):
+        out.append(_plan.cli_case(rng, "verdict"))
+    for _ in range({"quick": 50, "thorough": 500, "search": 100}[tier]):
+        out.append(_plan.cli_verdict_case(rng))
     return out
 
 
@@ -103,6 +111,9 @@ def distribution(recs):
 
 
 def compare(rec):
+    if rec["case"].startswith("cli "):
+        from . import _plan
+        return _plan.cli_compare(rec)
     # impl prints "-" where it has no value for a token
     it, mt = rec["impl"].split(), rec["model"].split()
     if len(it) != len(mt):
